@@ -17,14 +17,14 @@ def sh(cmd, cwd, env=None, timeout=3000):
     return r.returncode, r.stdout
 
 def confirm(k, d):
-    name = d.rstrip("/").replace("/tmp/mut/", "").replace("/", "-")
+    name = d.rstrip("/").replace("/tmp/mut2/", "r2-").replace("/tmp/mut/", "").replace("/", "-")
     wt = "/tmp/cf/wt-%s" % name
     res = {"mutant": d, "name": name}
     env = dict(os.environ, CARGO_TARGET_DIR="/tmp/cf/target-%d" % k, CARGO_NET_OFFLINE="true")
     try:
         meta = json.load(open(os.path.join(d, "meta.json")))
         demo_path = meta["demo_path"]
-        demo_file = [f for f in os.listdir(d) if f.startswith("demo_") and f.endswith(".rs")][0]
+        demo_file = [f for f in os.listdir(d) if f.startswith("demo") and f.endswith(".rs")][0]
         test_name = os.path.basename(demo_path)[:-3]
         subprocess.run(["git", "-C", "/repo", "worktree", "remove", "--force", wt], stdout=subprocess.DEVNULL, stderr=subprocess.DEVNULL)
         rc, out = sh(["git", "-C", "/repo", "worktree", "add", "-q", "--detach", wt, "HEAD"], "/")
